@@ -167,7 +167,19 @@ pub fn apply(d: &mut Vec<u8>, m: &Mutation) {
                 d[8..12].copy_from_slice(&v.to_le_bytes());
             }
         }
-        Mutation::SwapFields(..) | Mutation::RepeatField(..) => {
+        Mutation::SetOffset { index, value } => {
+            let base = if d.len() >= 12 && &d[..8] == r::MAGIC { 12 } else { 0 };
+            if d.len() >= base + 4 {
+                let n = u32::from_le_bytes([d[base], d[base + 1], d[base + 2], d[base + 3]]) as usize;
+                if n >= 2 {
+                    let at = base + 4 + 4 * (*index as usize % (n - 1));
+                    if at + 4 <= d.len() {
+                        d[at..at + 4].copy_from_slice(&value.to_le_bytes());
+                    }
+                }
+            }
+        }
+        Mutation::SwapFields(..) | Mutation::RepeatField(..) | Mutation::DropField(..) | Mutation::AppendField { .. } => {
             let framed = d.len() >= 12 && &d[..8] == r::MAGIC;
             let payload = if framed { &d[12..] } else { &d[..] };
             if let Ok((mut msg, _)) = r::decode(payload) {
@@ -177,6 +189,14 @@ pub fn apply(d: &mut Vec<u8>, m: &Mutation) {
                     Mutation::RepeatField(i) if n >= 1 => {
                         let f = msg.fields[*i as usize % n].clone();
                         msg.fields.insert(*i as usize % n, f)
+                    }
+                    Mutation::DropField(i) if n >= 1 => {
+                        msg.fields.remove(*i as usize % n);
+                    }
+                    Mutation::AppendField { tag, len } => {
+                        if !msg.has(*tag) {
+                            msg.put(*tag, &vec![0u8; *len as usize / 4 * 4]);
+                        }
                     }
                     _ => {}
                 }
